@@ -63,11 +63,12 @@ Proof.
   - rewrite Hs. cbn [bind]. eexists; reflexivity.
 Qed.
 
-(* process_file_never_raises: with the order-preserving sort, validating the onset bookkeeping of ANY
-   file (sorted or not, with any Delay groups and failed rows) returns normally *)
-Theorem process_file_never_raises rows : exists out, process_file None None rows = Ok out.
+(* process_file_never_raises: with the repaired (stable) sort -- and equally with the unrepaired code when
+   the platform's sort keeps the input order -- validating the onset bookkeeping of ANY file (sorted or
+   not, with any Delay groups and failed rows) returns normally *)
+Theorem process_file_never_raises rows perm1 perm2 : exists out, process_file true perm1 perm2 rows = Ok out.
 Proof.
-  unfold process_file. cbn [sort_by].
+  unfold process_file. cbn [sort_dataframe_by_onsets].
   destruct (needs_sorting rows); cbn [bind].
   - match goal with |- context [filter_by_index_list ?d _] =>
       destruct (filter_by_index_list_ok d) as [lines Hl] end.
@@ -76,3 +77,6 @@ Proof.
       destruct (filter_by_index_list_ok d) as [lines Hl] end.
     rewrite Hl. cbn [bind]. eexists; reflexivity.
 Qed.
+
+Corollary process_file_unrepaired_never_raises rows : exists out, process_file false None None rows = Ok out.
+Proof. exact (process_file_never_raises rows None None). Qed.
